@@ -28,7 +28,7 @@ def setup(ctx):
     ctx.level = "exploration"
     ctx.rule = (
         "redirect graphs: every node of N<=3 URLs (spread over three TLS servers / host spellings) is either final "
-        "(20/51/10) or redirects (30/31) to: each URL (chains, cycles, self-loops, cross-host), relative forms, "
+        "(20/51/10) or redirects (any 3x: 30, 31, 32..39) to: each URL (chains, cycles, self-loops, cross-host), relative forms, "
         "http://, titan://, GEMINI:// upper-case, empty meta, a 2000-byte URL, a URL with fragment, with userinfo; all "
         "such graphs for N<=2 and sampled for N=3 and random N<=8, x max_redirects 0..6 x follow on/off. distinct = "
         "(graph shape signature, max_redirects, follow flag, outcome, connections)."
@@ -268,14 +268,14 @@ def all_small_graphs(world):
         choices = []
         for node in nodes:
             opts = [("final", 20), ("final", 51)]
-            opts += [("node", t, 31) for t in nodes] + [("node", nodes[0], 30)]
+            opts += [("node", t, 31) for t in nodes] + [("node", nodes[0], 30), ("node", nodes[-1], 32), ("node", nodes[0], 39)]
             opts += [("special", k2, 30) for k2 in SPECIAL_TARGETS]
             choices.append(opts)
         for combo in itertools.product(*choices):
             out.append((nodes, dict(zip(nodes, combo)), nodes[0], f"all-N{n}"))
     for length in range(0, 9):
         nodes = [(i % 3, i) for i in range(length + 1)]
-        edges = {nodes[i]: ("node", nodes[i + 1], 31 if i % 2 else 30) for i in range(length)}
+        edges = {nodes[i]: ("node", nodes[i + 1], (30, 31, 32, 35, 39)[i % 5]) for i in range(length)}
         edges[nodes[-1]] = ("final", 20)
         out.append((nodes, edges, nodes[0], f"chain-{length}"))
         # same-server chain
@@ -305,7 +305,7 @@ def random_graph(rng, world):
         if r < 0.25:
             edges[node] = ("final", rng.choice([20, 20, 51, 10]))
         elif r < 0.9:
-            edges[node] = ("node", rng.choice(nodes), rng.choice([30, 31]), rng.choice(SPELLINGS))
+            edges[node] = ("node", rng.choice(nodes), rng.choice([30, 31, 31, 32, 33, 37, 39]), rng.choice(SPELLINGS))
         else:
             edges[node] = ("special", rng.choice(SPECIAL_TARGETS), 30)
     return nodes, edges, nodes[0], f"random-N{n}"
